@@ -154,6 +154,7 @@ class ReopenEngine(Engine):
         swarm = history_swarm(rng)
         swarm["removals"] = False if rng.random() < 0.8 else swarm["removals"]
         swarm["limit"] = rng.choice([1, 2, 5, 32, 100])
+        swarm["weights"]["set_limit"] = 0  # the limit is enforced at save time: lowering it is C11's business
         swarm["reopen_w"] = rng.choice([1, 2, 4])
         swarm["oi_w"] = rng.choice([0, 2, 4])
         if swarm["program"]:
